@@ -1,11 +1,13 @@
 package main
 
 import (
+	"context"
 	"fmt"
 	"go/ast"
 	"go/token"
 	"go/types"
 	"os"
+	"os/exec"
 	"path/filepath"
 	"sort"
 	"strings"
@@ -152,8 +154,21 @@ func (ws *Workspace) generate(spec CorpusSpec) (string, error) {
 			args = append(args, filepath.Join(repoDir, s))
 		}
 	}
-	return run(ws.Dir, ws.Tl2gen, args...)
+	// the generator under analysis may not terminate (a seeded change made it loop while allocating): bound its run
+	ctx, cancel := context.WithTimeout(context.Background(), generatorTimeout)
+	defer cancel()
+	sh := append([]string{"-c", `ulimit -v 12000000 2>/dev/null; exec "$0" "$@"`, ws.Tl2gen}, args...)
+	cmd := exec.CommandContext(ctx, "sh", sh...)
+	cmd.Dir = ws.Dir
+	cmd.Env = goEnv()
+	out, err := cmd.CombinedOutput()
+	if ctx.Err() != nil {
+		return string(out), fmt.Errorf("tl2gen did not finish within %s on corpus %s (killed): %v", generatorTimeout, spec.Name, err)
+	}
+	return string(out), err
 }
+
+const generatorTimeout = 5 * time.Minute
 
 const loadMode = packages.NeedName | packages.NeedFiles | packages.NeedCompiledGoFiles | packages.NeedSyntax |
 	packages.NeedTypes | packages.NeedTypesInfo | packages.NeedImports | packages.NeedTypesSizes | packages.NeedDeps
